@@ -346,6 +346,18 @@ def owned_arrays(ctx, P, rule="ARRAY-READONLY"):
             if nm in ("make_owned_array", "TreeSequence_make_array", "Tree_make_array"):
                 n += 1
     ctx.ob(rule, "factory-users", n >= 40, tu.loc(fn.node), "%d getters go through the read-only factory" % n)
+    # a zero-copy view is only safe when the owner never frees or reallocates the buffer while it lives: tree sequences and the
+    # per-node arrays of a Tree.  Table collections and tables reallocate on every edit: their getters must copy.
+    for f in tu.funcs.values():
+        for c in calls(f.body):
+            if callee(c) != "make_owned_array" or f.name == "make_owned_array":
+                continue
+            owner_ty = (f.params[0].ty or "") if f.params else ""
+            ok = re.match(r"^(TreeSequence|Tree|Variant) \*$", owner_ty) is not None
+            ctx.ob(rule, "view-owner|%s" % f.name, ok, tu.loc(c),
+                   "view handed out by an immutable owner (%s)" % owner_ty if ok else
+                   "%s hands out a zero-copy view of memory owned by `%s`, which frees / reallocates its buffers when edited: "
+                   "the array dangles after the next edit" % (f.name, owner_ty))
     return n
 
 
